@@ -63,8 +63,10 @@ def run(tier):
     for k, f in enumerate(singles[:60 if quick else len(singles)]):
         ch = ["file", "option", "dict"][k % 3] if f["section"] == "System" else ["file", "option"][k % 2]
         scs.append(dict(mode="single", field=f, kind="valid", channel=ch, sid="single[%s.%s|%s|valid]" % (f["section"], f["key"], ch)))
+        if k % 3 == 0:
+            scs.append(dict(mode="single", field=f, kind="valid", channel="update", sid="single[%s.%s|update|valid]" % (f["section"], f["key"])))
     for k, f in enumerate(with_alt[:50 if quick else len(with_alt)]):
-        for ch in (["file", "option"][k % 2:k % 2 + 1] if quick else ["file", "option"]):
+        for ch in ((["file", "option"][k % 2:k % 2 + 1] + ["update"]) if quick else ["file", "option", "update"]):
             scs.append(dict(mode="single", field=f, kind="out_of_alternatives", channel=ch,
                             sid="single[%s.%s|%s|out_of_alternatives]" % (f["section"], f["key"], ch)))
     for i, sc in enumerate(scs):
